@@ -35,7 +35,7 @@ def run(ck: Check):
     ck.trusted = TRUSTED
     ck.rule = ("random dense / conv2d / conv3d / pool / mixed stacks (raw and Walsh, padding 0..2, depth 1..2) with random gates, "
                "including logits that differ only at the 1e-30 scale; each evaluated in eval() under the four sampling modes x "
-               "temperature {0.3, 1, 7} x grad_factor {1, 2}, three repeated calls, the probe rows embedded in two different batches "
+               "temperature {0.3, 1, 7} x grad_factor {1, 1.3 (and 2, 2.1 in the thorough tier)}, three repeated calls, the probe rows embedded in two different batches "
                "(and two leading shapes for dense), after a training-mode forward, and after in-place weight changes; outputs compared "
                "exactly with the reference circuit (Python mirror for volume, Model/ConvNet.eval_net in the kernel for a subset). "
                "Non-trivial: at least two distinct non-pass-through gates. Distinct = canonical JSON of the architecture + gates.")
@@ -116,7 +116,7 @@ def run(ck: Check):
         ok = True
         for mode in ("soft", "hard", "gumbel_soft", "gumbel_hard"):
             for temp in ((0.3, 1.0, 7.0) if ck.tier == "thorough" else (rng.choice([0.3, 7.0]), 1.0)):
-                for gf in (1.0, 2.0):
+                for gf in ((1.0, 1.3, 2.0, 2.1) if ck.tier == "thorough" else (1.0, 1.3)):   # 1.3, 2.1: factors that are not dyadic (f + (1 - f) != 1 in binary32)
                     for m in logic:
                         if hasattr(m, "forward_sampling"):
                             m.forward_sampling = mode
